@@ -50,7 +50,7 @@ EXTRA_STAGES = [("EmuVerif.Props.C03Ideal", "Audit/C03Ideal.lean")]
 
 
 # ------------------------------------------------------------------ synthetic Results
-def gen_results_case(rng):
+def gen_results_case(rng, only=None):
     """A register-order results payload for n atoms + a permutation + which tags are stored and how
     (torch tensors as produced by a run, or nested lists as after deserialisation)."""
     n = rng.choice([1, 2, 3, 4, rng.randint(2, 12), rng.randint(2, 30)])
@@ -60,7 +60,12 @@ def gen_results_case(rng):
         ids = [str(i) for i in pc.rand_perm(rng, n)]            # numeric, scrambled labels
     nt = rng.randint(1, 3)
     case = dict(n=n, p=p, ids=ids, permute=rng.random() < 0.85, nt=nt, as_list=rng.random() < 0.35)
-    if rng.random() < 0.75:
+    want = (lambda tag, pr: rng.random() < pr) if only is None else (lambda tag, pr: tag in only)
+    if only is not None:
+        case["permute"] = True
+        if n >= 3:
+            case["p"] = non_involution(rng, n)
+    if want("bitstrings", 0.75):
         alpha = rng.choice(["01", "01", "rg", "01x"])
         counters = []
         for t in range(nt):
@@ -71,13 +76,13 @@ def gen_results_case(rng):
                     keys.append(k)
             counters.append([(k, rng.randint(1, 500)) for k in keys])
         case["bitstrings"] = counters
-    if rng.random() < 0.8:
+    if want("occupation", 0.8):
         # distinct, *not* float32-representable values: a float32 round trip of list-valued results shows
         case["occupation"] = [[(i + 1) / 64 + t + rng.uniform(0, 1e-3) for i in range(n)] for t in range(nt)]
-    if rng.random() < 0.7:
+    if want("correlation", 0.7):
         case["correlation"] = [[[(i * n + j) / 8 + 100 * t + rng.uniform(0, 1e-3) for j in range(n)] for i in range(n)]
                                for t in range(nt)]
-    if rng.random() < 0.6:
+    if want("energy", 0.6):
         case["energy"] = [rng.uniform(-5, 5) for _ in range(nt)]
     return case
 
@@ -156,12 +161,16 @@ def request_line(cmd, case, view):
     return " ".join([cmd] + args + c.split(" ")[1:])
 
 
-def results_correspondence(rep: Report, rng, ncases: int) -> None:
+def results_correspondence(rep: Report, rng, ncases: int):
+    """generator for pc.run_batched"""
     import torch
     from emu_mps.mps_backend_impl import MPSBackendImpl
     lines, exp, cases = [], [], []
-    for _ in range(ncases):
-        case = gen_results_case(rng)
+    # every single-tag result set first (a tag handled only when another one is present would hide otherwise)
+    singles = [("correlation",), ("occupation",), ("bitstrings",), ("correlation", "energy"), ("bitstrings", "correlation"),
+               ("occupation", "correlation", "bitstrings", "energy")]
+    for k in range(ncases):
+        case = gen_results_case(rng, singles[k] if k < len(singles) else None)
         view = site_view(case)
         reg = dict(ids=case["ids"], bitstrings=case.get("bitstrings"), occupation=case.get("occupation"),
                    correlation=case.get("correlation"))
@@ -194,10 +203,8 @@ def results_correspondence(rep: Report, rng, ncases: int) -> None:
         rep.hist("results_tags", "+".join(t[:3] for t in ("bitstrings", "occupation", "correlation", "energy") if t in case) or "none")
         rep.hist("results_storage", "list" if case["as_list"] else "tensor")
         rep.hist("results_permute_flag", case["permute"])
-    try:
-        mo = pc.par_batch(lines, 4)
-    except LeanError as e:
-        rep.broke("driver: " + str(e)[-800:])
+    mo = yield lines
+    if mo is None:
         return
     bad = 0
     for l, m, e, (what, case) in zip(lines, mo, exp, cases):
@@ -247,7 +254,8 @@ def _obs_makers(pb, emu_mps):
     }
 
 
-def observables_correspondence(rep: Report, rng, ncases: int) -> None:
+def observables_correspondence(rep: Report, rng, ncases: int):
+    """generator for pc.run_batched"""
     from harness import compat
     compat.install()
     import pulser.backend as pb
@@ -274,10 +282,8 @@ def observables_correspondence(rep: Report, rng, ncases: int) -> None:
     if not lines:
         rep.broke("check_permutable_observables: no MPSConfig could be constructed")
         return
-    try:
-        mo = pc.par_batch(lines, 1)
-    except LeanError as e:
-        rep.broke("driver: " + str(e)[-800:])
+    mo = yield lines
+    if mo is None:
         return
     for l, m, e, (rq, tags) in zip(lines, mo, exp, meta):
         rep.case(key=l, nontrivial=rq, sample={"requested": rq, "tags": tags, "effective": e})
@@ -538,8 +544,8 @@ def _dist(got, ref):
     return worst, where
 
 
-def e2e_oracle(case):
-    """C03 on one problem: reordering on/off, relabelling and kill+resume give the same per-atom results, at t = 0
+def e2e_oracle(case, full=True):
+    """C03 on one problem (full=False: without the combined relabelled+reordered leg): reordering on/off, relabelling and kill+resume give the same per-atom results, at t = 0
     and at the end, for the default and for user-supplied initial states; and they are the dense reference's.
     Failure string or None."""
     n = case["n"]
@@ -553,11 +559,12 @@ def e2e_oracle(case):
         worst = max(worst, d)
         if not d <= tol:
             return f"ordering off: {where} differs from the dense reference by {d:.3e} > {tol}", worst
-    for name, order, sp, opt, res in (("optimize_qubit_ordering on", ident, case["site_perm"], True, None),
-                                      ("relabelled register", case["relabel"], ident, False, None),
-                                      ("relabelled register + ordering on", case["relabel"], case["site_perm"], True, None),
-                                      (f"ordering on, killed after {case.get('kill_after', 2)} progress calls and resumed",
-                                       ident, case["site_perm"], True, case.get("kill_after", 2))):
+    legs = (("optimize_qubit_ordering on", ident, case["site_perm"], True, None),
+            ("relabelled register", case["relabel"], ident, False, None),
+            ("relabelled register + ordering on", case["relabel"], case["site_perm"], True, None) if full else None,
+            (f"ordering on, killed after {case.get('kill_after', 2)} progress calls and resumed",
+             ident, case["site_perm"], True, case.get("kill_after", 2)))
+    for name, order, sp, opt, res in (l for l in legs if l):
         try:
             got, ao, bits0 = run_backend(case, order, sp, opt, res)
         except InputMutated as e:
@@ -579,16 +586,17 @@ def e2e_oracle(case):
     return None, worst
 
 
-def e2e_search(rep: Report, rng, ncases: int, nmax: int) -> None:
+def e2e_search(rep: Report, rng, ncases: int, nmax: int, full: bool = True) -> None:
     worst = 0.0
     for k in range(ncases):
         # the first cases always carry mixed-sign couplings (a signed user matrix, XY) and the three kinds of
         # user-supplied initial states
+        # (quick tier: only the first two, without the combined relabelled+reordered leg)
         fixed = (("mixed", "Rydberg", "entangled"), ("mixed", "XY", "none"), ("nonneg", "Rydberg", "product"),
                  ("negative", "Rydberg", "basis"))
         case = gen_e2e(rng, nmax, *(fixed[k] if k < len(fixed) else (None, None, None)))
         try:
-            msg, w = e2e_oracle(case)
+            msg, w = e2e_oracle(case, full)
         except Exception as e:
             msg, w = f"back-end raised {type(e).__name__}: {str(e)[:160]}", 0.0
         worst = max(worst, w)
@@ -643,13 +651,13 @@ def check(rep: Report, tier: str, seed: int) -> None:
     extra.start()
     rng = seeded(seed * 7919 + 3)
     quick = tier == "quick"
-    pc.helper_correspondence(rep, rng, 300 if quick else 8000)
-    laws(rep, rng, 200 if quick else 5000)
-    results_correspondence(rep, rng, 80 if quick else 2000)
-    observables_correspondence(rep, rng, 25 if quick else 200)
+    pc.run_batched(rep, [pc.helper_correspondence_gen(rep, rng, 200 if quick else 8000),
+                         results_correspondence(rep, rng, 60 if quick else 2000),
+                         observables_correspondence(rep, rng, 25 if quick else 200)], k=1 if quick else 8)
+    laws(rep, rng, 150 if quick else 5000)
     probe_list_precision(rep)
     probe_tag_suffix(rep)
-    e2e_search(rep, rng, 3 if quick else 30, 3 if quick else 4)
+    e2e_search(rep, rng, 2 if quick else 30, 3 if quick else 4, full=not quick)
     extra.merge()
     if rep.broken and not rep.unknown_failing():
         search(rep, seed, 400 if quick else 5000)
@@ -743,7 +751,7 @@ def search(rep: Report, seed: int, n: int) -> None:
     if rep.failing:
         return
     sub = Report(rep.prop, rep.tier, rep.seed)
-    results_correspondence(sub, rng, n)
+    pc.run_batched(sub, [results_correspondence(sub, rng, n)])
     rep.failing += sub.failing
     if not rep.unknown_failing():
         e2e_search(rep, rng, max(4, n // 100), 4)
@@ -766,7 +774,7 @@ def replay(rep: Report, path: str) -> int:
             elif d["kind"] == "list_f32":
                 msg = list_precision_probe(d["p"], d["occ"])
             elif d["kind"] == "e2e":
-                msg = e2e_oracle(d["case"])[0]
+                msg = e2e_oracle(d["case"], True)[0]
             elif d["kind"] == "obs":
                 msg = obs_oracle(d["requested"], d["names"])[2]
             elif d["kind"] == "results":
